@@ -65,6 +65,7 @@ from betterproto.lib.google.protobuf import (
 from betterproto.lib.google.protobuf.compiler import CodeGeneratorRequest
 
 from .. import which_one_of
+from ..casing import sanitize_name
 from ..compile.importing import (
     WRAPPER_TYPES,
     get_type_reference,
@@ -682,6 +683,11 @@ class EnumDefinitionCompiler(MessageCompiler):
             )
             for entry_number, entry_proto_value in enumerate(self.proto_obj.value)
         ]
+        if len({entry.name for entry in self.entries}) != len(self.entries):
+            # Dropping the prefix made two members collide (``FOO_A`` and ``A``):
+            # keep the proto names, every value needs a member of its own.
+            for entry, entry_proto_value in zip(self.entries, self.proto_obj.value):
+                entry.name = sanitize_name(entry_proto_value.name)
         super().__post_init__()  # call MessageCompiler __post_init__
 
 
